@@ -25,16 +25,33 @@ theorem CorePh.len {V : St → List Val} (ph : WPh) (s : St) (cs : List Nat) (h 
 theorem CoreD.idle {V : St → List Val} (s : St) (cs : List Nat) (h : CoreD V s cs) : CorePh V .idle s cs :=
   ⟨h.1, h.2.not_indicator⟩
 
+/-- ... together with the invariant of the primitives -/
+def CorePhX (V : St → List Val) (X : St → Prop) (ph : WPh) (s : St) (cs : List Nat) : Prop := CorePh V ph s cs ∧ X s
+def CoreDX (V : St → List Val) (X : St → Prop) (s : St) (cs : List Nat) : Prop := CoreD V s cs ∧ X s
+
+theorem CorePhX.len {V : St → List Val} {X : St → Prop} (ph : WPh) (s : St) (cs : List Nat) (h : CorePhX V X ph s cs) :
+    (V s).length = s.descs.length := h.1.core.len
+
+theorem CoreDX.idle {V : St → List Val} {X : St → Prop} (s : St) (cs : List Nat) (h : CoreDX V X s cs) :
+    CorePhX V X .idle s cs := ⟨CoreD.idle s cs h.1, h.2⟩
+
+theorem grows_walk1 {P : Prims} {V : St → List Val} {X : St → Prop} (hR : Rec P V X) (d : Desc) : Grows V X (walk1 P d) :=
+  Grows.of_pres (fun s0 => growG_walk1_of hR s0 d (growG_dispatch hR s0 d))
+
+theorem grows_dispatch {P : Prims} {V : St → List Val} {X : St → Prop} (hR : Rec P V X) (d : Desc) :
+    Grows V X (dispatch P d) :=
+  Grows.of_pres (fun s0 => growG_dispatch hR s0 d)
+
 section members
-variable {P : Prims} {V : St → List Val} (hR : Rec P V)
+variable {P : Prims} {V : St → List Val} {X : St → Prop} (hR : Rec P V X)
 include hR
 
 /-- a member outside a bit-map definition that is not a bit-map operator: prelude, then dispatch -/
 theorem presG_walk1_idle (d : Desc) (hid : d.id ≠ 31031)
-    (hd : PresG V (CoreD V) (CorePh V .idle) (dispatch P d) (cancelsD P d)) :
-    PresG V (CorePh V .idle) (CorePh V .idle) (walk1 P d) (cancels1 P d) := by
+    (hd : PresG V (CoreDX V X) (CorePhX V X .idle) (dispatch P d) (cancelsD P d)) :
+    PresG V (CorePhX V X .idle) (CorePhX V X .idle) (walk1 P d) (cancels1 P d) := by
   intro s s' cs h hok hi
-  obtain ⟨hc, hni⟩ := hi
+  obtain ⟨⟨hc, hni⟩, hx⟩ := hi
   have hq := hc.quiet
   rw [walk1_quiet P d s hq.1 hq.2.1 hq.2.2] at h
   rw [cancels1_eq, entryOf_quiet P d s hq.1 hq.2.1 hq.2.2]
@@ -43,14 +60,17 @@ theorem presG_walk1_idle (d : Desc) (hid : d.id ≠ 31031)
   | ok s1 =>
     rw [h1] at h
     simp only at h ⊢
-    obtain ⟨c1, st1, _⟩ := hc.prelude hR hni d.id hid h1
-    exact hd s1 s' cs h hok ⟨c1, st1⟩
+    obtain ⟨c1, st1, _⟩ := hc.prelude hR hni d.id hid h1 hx
+    have hx1 : X s1 := (growG_bitmapDefinition hR s d.id s s1 h1 (G.refl V X s hc.len)).2.2.2 hx
+    exact hd s1 s' cs h hok ⟨⟨c1, st1⟩, hx1⟩
 
 /-- the bit-map operator -/
 theorem presG_walk1_bitmapOp (id : Nat) (hid : isBitmapOpId id = true) :
-    PresG V (CorePh V .idle) (CorePh V .afterOp) (walk1 P (.op id)) (cancels1 P (.op id)) := by
+    PresG V (CorePhX V X .idle) (CorePhX V X .afterOp) (walk1 P (.op id)) (cancels1 P (.op id)) := by
   intro s s' cs h hok hi
-  obtain ⟨hc, hni⟩ := hi
+  obtain ⟨⟨hc, hni⟩, hx⟩ := hi
+  have hx' : X s' := (grows_walk1 hR _ s s' hc.len h).2.2.2 hx
+  refine ⟨?_, hx'⟩
   have hq := hc.quiet
   rw [walk1_quiet P _ s hq.1 hq.2.1 hq.2.2] at h
   rw [cancels1_eq, entryOf_quiet P _ s hq.1 hq.2.1 hq.2.2]
@@ -64,7 +84,7 @@ theorem presG_walk1_bitmapOp (id : Nat) (hid : isBitmapOpId id = true) :
   | ok s1 =>
     rw [h1] at h
     simp only [dispatch, cancelsD, if_neg h235, List.append_nil] at h ⊢
-    obtain ⟨c1, st1, _⟩ := hc.prelude hR hni _ hne h1
+    obtain ⟨c1, st1, _⟩ := hc.prelude hR hni _ hne h1 hx
     exact c1.bitmapOp hR st1 id hid h
 
 /-- `237000` directly behind the operator -/
@@ -118,7 +138,7 @@ end members
 /-! ### the dispatch on a member outside a bit-map definition -/
 
 section dispatch
-variable {P : Prims} {V : St → List Val} (hR : Rec P V)
+variable {P : Prims} {V : St → List Val} {X : St → Prop} (hR : Rec P V X)
 include hR
 
 theorem presG_disp_elem (e : Elem) (he : e.id ≠ 31031) :
@@ -137,13 +157,13 @@ theorem presG_disp_op (id : Nat) (h1 : okIdleOp id = true) (h2 : isBitmapOpId id
   exact ⟨a, b.not_indicator⟩
 
 theorem presG_disp_iter (ms : List Desc) (n : Nat)
-    (ih : PresG V (CorePh V .idle) (CorePh V .idle) (walkList P ms) (cancelsL P ms)) :
-    PresG V (CoreD V) (CorePh V .idle) (iterN n (walkList P ms)) (ghostIter (walkList P ms) (cancelsL P ms) n) :=
-  (PresG.iterN ih (CorePh.len .idle) (fun s0 => growG_walkList hR s0 ms) n).weaken CoreD.idle (fun _ _ h => h)
+    (ih : PresG V (CorePhX V X .idle) (CorePhX V X .idle) (walkList P ms) (cancelsL P ms)) :
+    PresG V (CoreDX V X) (CorePhX V X .idle) (iterN n (walkList P ms)) (ghostIter (walkList P ms) (cancelsL P ms) n) :=
+  (PresG.iterN ih (CorePhX.len .idle) (fun s0 => growG_walkList hR s0 ms) n).weaken CoreDX.idle (fun _ _ h => h)
 
 theorem presG_disp_delayed (id : Nat) (fe : Elem) (ms : List Desc) (hfe : fe.id ≠ 31031)
-    (ih : PresG V (CorePh V .idle) (CorePh V .idle) (walkList P ms) (cancelsL P ms)) :
-    PresG V (CoreD V) (CorePh V .idle) (dispatch P (.delayedRep id (.elem fe) ms))
+    (ih : PresG V (CorePhX V X .idle) (CorePhX V X .idle) (walkList P ms) (cancelsL P ms)) :
+    PresG V (CoreDX V X) (CorePhX V X .idle) (dispatch P (.delayedRep id (.elem fe) ms))
       (cancelsD P (.delayedRep id (.elem fe) ms)) := by
   intro s s' cs h hok hi
   simp only [dispatch, cancelsD] at h ⊢
@@ -152,8 +172,9 @@ theorem presG_disp_delayed (id : Nat) (fe : Elem) (ms : List Desc) (hfe : fe.id 
   | ok s1 =>
     rw [h2] at h
     simp only at h ⊢
-    obtain ⟨a, b, _, _⟩ := hi.1.element hR hi.2 fe hfe h2
-    have hd1 : CoreD V s1 cs := ⟨a, by unfold Settled; rw [b]; exact hi.2⟩
+    obtain ⟨a, b, _, _⟩ := hi.1.1.element hR hi.1.2 fe hfe h2
+    have hx1 : X s1 := (growG_elementDescriptor hR s _ _ s s1 h2 (G.refl V X s hi.1.1.len)).2.2.2 hi.2
+    have hd1 : CoreDX V X s1 cs := ⟨⟨a, by unfold Settled; rw [b]; exact hi.1.2⟩, hx1⟩
     cases h3 : P.factorValue s1 >>= factorCount with
     | error err => rw [h3] at h; cases h
     | ok n =>
@@ -169,15 +190,13 @@ theorem walkList_cons_kl (P : Prims) (d : Desc) (ds : List Desc) (s : St) :
     walkList P (d :: ds) s = Bufr.kl (walk1 P d) (walkList P ds) s := by
   rw [walkList]; rfl
 
-theorem grows_walk1 {P : Prims} {V : St → List Val} (hR : Rec P V) (d : Desc) : Grows V (walk1 P d) :=
-  Grows.of_pres (fun s0 => growG_walk1_of hR s0 d (growG_dispatch hR s0 d))
-
 /-- a member followed by the rest of its list -/
-theorem presG_cons {P : Prims} {V : St → List Val} (hR : Rec P V) (d : Desc) (ds : List Desc) (ph ph' : WPh)
-    (h1 : PresG V (CorePh V ph) (CorePh V ph') (walk1 P d) (cancels1 P d))
-    (h2 : PresG V (CorePh V ph') (CorePh V .idle) (walkList P ds) (cancelsL P ds)) :
-    PresG V (CorePh V ph) (CorePh V .idle) (walkList P (d :: ds)) (cancelsL P (d :: ds)) :=
-  (PresG.kl h1 h2 (CorePh.len ph) (grows_walk1 hR d) (grows_walkList hR ds)).congr
+theorem presG_cons {P : Prims} {V : St → List Val} {X : St → Prop} (hR : Rec P V X) (d : Desc) (ds : List Desc)
+    (ph ph' : WPh)
+    (h1 : PresG V (CorePhX V X ph) (CorePhX V X ph') (walk1 P d) (cancels1 P d))
+    (h2 : PresG V (CorePhX V X ph') (CorePhX V X .idle) (walkList P ds) (cancelsL P ds)) :
+    PresG V (CorePhX V X ph) (CorePhX V X .idle) (walkList P (d :: ds)) (cancelsL P (d :: ds)) :=
+  (PresG.kl h1 h2 (CorePhX.len ph) (grows_walk1 hR d) (grows_walkList hR ds)).congr
     (walkList_cons_kl P d ds) (cancelsL_cons P d ds)
 
 /-! ### `wfL`, unfolded -/
@@ -239,9 +258,9 @@ theorem wfD_id (d : Desc) (h : wfD d = true) : d.id ≠ 31031 := by
 
 mutual
 /-- the walk of a member list that is well-formed from the phase `ph` -/
-theorem presG_walkL {P : Prims} {V : St → List Val} (hR : Rec P V) :
+theorem presG_walkL {P : Prims} {V : St → List Val} {X : St → Prop} (hR : Rec P V X) :
     (t : List Desc) → (ph : WPh) → wfL ph t = true →
-      PresG V (CorePh V ph) (CorePh V .idle) (walkList P t) (cancelsL P t)
+      PresG V (CorePhX V X ph) (CorePhX V X .idle) (walkList P t) (cancelsL P t)
   | [], ph, h => by
     intro s s' cs hw _ hi
     rw [walkList] at hw
@@ -253,6 +272,9 @@ theorem presG_walkL {P : Prims} {V : St → List Val} (hR : Rec P V) :
   | d :: ds, ph, h => by
     have hD := presG_disp hR d
     have hL := presG_walkL hR ds
+    have wx : ∀ ph ph', PresG V (CorePh V ph) (CorePh V ph') (walk1 P d) (cancels1 P d) →
+        PresG V (CorePhX V X ph) (CorePhX V X ph') (walk1 P d) (cancels1 P d) :=
+      fun ph ph' hh => hh.withX (CorePh.len ph) (grows_walk1 hR d)
     cases ph with
     | idle =>
       rcases wfL_idle_cons d ds h with ⟨id, rfl, hid, hw⟩ | ⟨_, hw1, hw2⟩
@@ -260,22 +282,22 @@ theorem presG_walkL {P : Prims} {V : St → List Val} (hR : Rec P V) :
       · exact presG_cons hR d ds .idle .idle (presG_walk1_idle hR d (wfD_id d hw1) (hD hw1)) (hL .idle hw2)
     | afterOp =>
       rcases wfL_afterOp_cons d ds h with ⟨rfl, hw⟩ | ⟨rfl, hw⟩ | ⟨hb, hw⟩
-      · exact presG_cons hR _ ds .afterOp .idle (presG_walk1_recall hR) (hL .idle hw)
-      · exact presG_cons hR _ ds .afterOp .after236 (presG_walk1_reuse hR) (hL .after236 hw)
-      · exact presG_cons hR d ds .afterOp .idle (presG_walk1_bitrep hR d hb .afterOp (Or.inl rfl)) (hL .idle hw)
+      · exact presG_cons hR _ ds .afterOp .idle (wx _ _ (presG_walk1_recall hR)) (hL .idle hw)
+      · exact presG_cons hR _ ds .afterOp .after236 (wx _ _ (presG_walk1_reuse hR)) (hL .after236 hw)
+      · exact presG_cons hR d ds .afterOp .idle (wx _ _ (presG_walk1_bitrep hR d hb .afterOp (Or.inl rfl))) (hL .idle hw)
     | after236 =>
       obtain ⟨hb, hw⟩ := wfL_after236_cons d ds h
-      exact presG_cons hR d ds .after236 .idle (presG_walk1_bitrep hR d hb .after236 (Or.inr rfl)) (hL .idle hw)
+      exact presG_cons hR d ds .after236 .idle (wx _ _ (presG_walk1_bitrep hR d hb .after236 (Or.inr rfl))) (hL .idle hw)
 
 /-- the dispatch on a member outside a bit-map definition -/
-theorem presG_disp {P : Prims} {V : St → List Val} (hR : Rec P V) :
-    (d : Desc) → wfD d = true → PresG V (CoreD V) (CorePh V .idle) (dispatch P d) (cancelsD P d)
+theorem presG_disp {P : Prims} {V : St → List Val} {X : St → Prop} (hR : Rec P V X) :
+    (d : Desc) → wfD d = true → PresG V (CoreDX V X) (CorePhX V X .idle) (dispatch P d) (cancelsD P d)
   | .elem e, h => by
     simp only [wfD] at h
-    exact presG_disp_elem hR e (by simpa using h)
+    exact (presG_disp_elem hR e (by simpa using h)).withX (fun _ _ hh => hh.1.len) (grows_dispatch hR _)
   | .op id, h => by
     simp only [wfD, Bool.and_eq_true, Bool.not_eq_true'] at h
-    exact presG_disp_op hR id h.1 h.2
+    exact (presG_disp_op hR id h.1 h.2).withX (fun _ _ hh => hh.1.len) (grows_dispatch hR _)
   | .fixedRep id ms, h => by
     simp only [wfD, Bool.and_eq_true] at h
     have ih := presG_walkL hR ms .idle h.2
@@ -290,7 +312,7 @@ theorem presG_disp {P : Prims} {V : St → List Val} (hR : Rec P V) :
   | .seq id ms, h => by
     simp only [wfD, Bool.and_eq_true] at h
     have ih := presG_walkL hR ms .idle h.2
-    exact (ih.weaken CoreD.idle (fun _ _ x => x)).congr (fun s => rfl) (fun s => rfl)
+    exact (ih.weaken CoreDX.idle (fun _ _ x => x)).congr (fun s => rfl) (fun s => rfl)
   | .undefElem _, h => by simp [wfD] at h
   | .undefSeq _, h => by simp [wfD] at h
 end
